@@ -344,7 +344,7 @@ reg("C15", gen=gen_skel, obligation_files=["Props/C15.v", "Gen/Skel.v"],
          "times (every call stamped by a global atomic counter), and n draws from a static targeter over 1..7 targets; every case is non-trivial",
     clauses={10: "a target was delivered twice", 11: "a target was lost (or an unknown one delivered)", 12: "a delivered target mixes fields of different targets",
              13: "a call failed with an error other than exhaustion", 14: "a call that started after exhaustion was reported still delivered a target or error",
-             15: "data race reported", 20: "static targeter returned an unknown target", 21: "static rotation uneven: a target used fewer than floor(n/k) or more than ceil(n/k) times", 22: "data race reported"},
+             15: "a caller of the targeter never returned (blocked for 20 s)", 20: "static targeter returned an unknown target", 21: "static rotation uneven: a target used fewer than floor(n/k) or more than ceil(n/k) times", 22: "data race reported"},
     assumptions=["data-race freedom of the binary is observed with the race detector in the thorough tier on the explored schedules, not proved",
                  "sharing through the heap below the closure's own variables (e.g. header maps of returned targets) is outside the skeleton"],
     trusted_base=_T2_TB,
@@ -355,7 +355,7 @@ PROPS["C02"]["gen"] = gen_skel
 PROPS["C02"]["obligation_files"] = ["Props/C02.v", "Gen/Skel.v"]
 PROPS["C02"]["trusted_base"] = _ATTACK_TB + _T2_TB
 
-reg("C18", gen=gen_skel, obligation_files=["Props/C18.v", "Gen/Skel.v"],
+reg("C18", needs_cli=True, gen=gen_skel, obligation_files=["Props/C18.v", "Gen/Skel.v"],
     rule="T2: the skeletons of the DNSCaching and ConnectTo dial closures and of resolver.address are regenerated and lockset_ok must hold "
          "of each by reflection. T1: an in-process DNS server (miekg/dns, loopback UDP) serves 1..8 A/AAAA records (IPv4 only, IPv6 only, "
          "mixed) per case; the dial function installed by DNSCaching (alone, before and after ConnectTo) over a recording dial is called "
@@ -363,7 +363,8 @@ reg("C18", gen=gen_skel, obligation_files=["Props/C18.v", "Gen/Skel.v"],
          "times sequentially or from up to 64 goroutines, plus an unmapped address; every case is non-trivial",
     clauses={1: "a dial attempted an address that is not resolved for the host, or not exactly one per IP family present", 2: "an address of the resolved set was never dialled in the second half of a long history (the cached set shrank)",
              3: "a dial failed before reaching the recording dial function", 10: "ConnectTo dialled an address that is not a replacement", 11: "ConnectTo rotation uneven (a replacement used fewer than floor(n/k) or more than ceil(n/k) times)",
-             12: "an unmapped address did not pass through unchanged"},
+             12: "an unmapped address did not pass through unchanged",
+             30: "the attack command's requests for a -connect-to address did not all succeed at its replacements", 31: "the attack command never used one of the -connect-to replacements"},
     diffs={20: "sequential ConnectTo dial order differs from the model's rotation"},
     assumptions=["rs/dnscache lookup and refresh are library code; the shuffle is an oracle permutation in the model and a PRNG in the code (coverage clause 2 is probabilistic: miss probability < 1e-11 per address)",
                  "data-race freedom of the binary is observed with the race detector in the thorough tier, not proved"],
